@@ -302,6 +302,64 @@ PRIMITIVES = {"WalletDb::transactionally", "WalletDb::transactionally_with_exten
 EXPECT_AT_LEAST = {"WalletWrite": 25, "OutputLockStore": 4, "WalletCommitmentTrees": 9, "WalletDb": 3, "PoolMigrations": 4, "Store": 4}
 
 
+BACKEND_API = "zcash_client_backend/src/data_api.rs"
+BACKEND_LOCKING = "zcash_client_backend/src/data_api/locking.rs"
+# (trait, file, qualifier): every method of the trait must be classified for the connection-owning
+# impl; a method the impl does not override is classified on the trait's DEFAULT body (a default
+# that makes more than one call of a transactional method is not atomic)
+TRAITS = [("WalletWrite", BACKEND_API, "WalletWrite"),
+          ("WalletCommitmentTrees", BACKEND_API, "WalletCommitmentTrees"),
+          ("OutputLockStore", BACKEND_LOCKING, "OutputLockStore")]
+
+
+def trait_methods(rel, trait):
+    """(name, default body or None) of every method of `pub trait NAME` (cfg-gated ones included)."""
+    src = top_level_test_cut(blank(srcgen.read(rel)))
+    m = re.search(r"^pub trait " + re.escape(trait) + r"\b[^{;]*\{", src, flags=re.M)
+    if not m:
+        raise SrcgenError("trait %s not found in %s" % (trait, rel))
+    a = m.end() - 1
+    body = src[a + 1:match_brace(src, a)]
+    out = []
+    for mm in re.finditer(r"\bfn\s+([A-Za-z0-9_]+)\s*(<[^(]*>)?\s*\(", body):
+        pre = body[:mm.start()]
+        if pre.count("{") != pre.count("}"):
+            continue
+        k, pd = mm.end() - 1, 0
+        while True:
+            ch = body[k]
+            if ch in "([":
+                pd += 1
+            elif ch in ")]":
+                pd -= 1
+            elif ch == "{" and pd == 0:
+                out.append((mm.group(1), body[k + 1:match_brace(body, k)]))
+                break
+            elif ch == ";" and pd == 0:
+                out.append((mm.group(1), None))
+                break
+            k += 1
+    if len(out) < 4:
+        raise SrcgenError("trait %s: only %d methods found" % (trait, len(out)))
+    return out
+
+
+def classify_default(body):
+    """A trait default body, run on the connection-owning impl: atomic only if it is a single call
+    of one method of the same trait (which is classified itself)."""
+    b = norm(body)
+    calls = re.findall(r"\bself\.([a-z_0-9]+)\(", b)
+    if re.search(r"\bfor\b|\bwhile\b|\bloop\b|\.iter\(\)|try_for_each", b.split("self.", 1)[0]) and calls:
+        return "Other", "trait default loops around self.%s" % calls[0]
+    if len(calls) == 1:
+        st = split_stmts(b)
+        if len(st) <= 2 and whole_call(st[0], r"self\.[a-z_0-9]+") and (len(st) == 1 or st[1] == "Ok(())"):
+            return "Delegates", calls[0]
+    if not calls and not DB_TOUCH.search(b):
+        return "ReadOnly", "trait default touches nothing"
+    return "Other", "trait default makes %d calls of transactional methods" % len(calls)
+
+
 def check_primitive(name, body):
     """transactionally / transactionally_with_extension: begin, run the closure with `?`, commit
     with `?`, return Ok(result) — in this order, nothing else touching the connection."""
@@ -345,6 +403,16 @@ def extract():
                     shape, detail = JUSTIFIED[qq][0], "justified by hand: " + JUSTIFIED[qq][1]
                 table.append((q, shape, detail))
                 counts[qual] = counts.get(qual, 0) + 1
+    # every method of the write traits must be classified; not overridden => the default body counts
+    for trait, rel, qual in TRAITS:
+        have = {t[0].split("::")[1].rstrip("'") for t in table if t[0].startswith(qual + "::")}
+        for name, default in trait_methods(rel, trait):
+            if name in have:
+                continue
+            if default is None:
+                raise SrcgenError("%s::%s: required trait method not found in the connection-owning impl" % (qual, name))
+            shape, detail = classify_default(default)
+            table.append(("%s::%s" % (qual, name), shape, "NOT overridden; trait default: " + detail))
     for q, nmin in EXPECT_AT_LEAST.items():
         if counts.get(q, 0) < nmin:
             raise SrcgenError("only %d methods found for %s (expected at least %d): extractor out of date" % (counts.get(q, 0), q, nmin))
@@ -352,7 +420,7 @@ def extract():
     for q, shape, detail in table:
         if shape == "Delegates":
             qq = q.rstrip("'")
-            tgt = JUSTIFIED[qq][1] if qq in JUSTIFIED else detail
+            tgt = JUSTIFIED[qq][1] if qq in JUSTIFIED else detail.split(": ")[-1]
             cands = [t for t in table if t[0].split("::")[1].rstrip("'") == tgt and t[0].rstrip("'") != qq]
             if not cands:
                 raise SrcgenError("%s delegates to %s which is not in the table" % (q, tgt))
@@ -644,7 +712,7 @@ class C02(Config):
     n_tags = 60
     shard_size = 100
     harness_timeout = 7200
-    classes = {}
+    classes = {1: "C02-remove-retained-checkpoints-commits-per-pool"}
     rule = ("every write operation reachable through the public API (WalletWrite, OutputLockStore, WalletCommitmentTrees on "
             "WalletDb; PoolMigrations store writes incl. store_proved_transaction / take_transaction_for_broadcast on a really "
             "proved transaction) on database states reached by a generated wallet history (plain; with locks, stored "
